@@ -1,6 +1,10 @@
 package main
 
 import (
+	"go/constant"
+	"go/token"
+	"go/types"
+
 	"golang.org/x/tools/go/ssa"
 )
 
@@ -64,8 +68,170 @@ func retPointsOf(r *ssa.Return) []retPoint {
 	for i := range r.Results {
 		vals[i] = resultValue(r, i)
 	}
+	// named results of a function with defer live in cells and the return loads them: split by the predecessors of the
+	// return block, each with the one value that reaches the end of that predecessor (when there is exactly one)
+	if cellSplit := retCellSplit(r, vals); len(cellSplit) > 0 {
+		for _, cs := range cellSplit {
+			split(cs.Vals, cs.Atoms, cs.At, 1)
+		}
+		return out
+	}
 	split(vals, AtomsAt(r), r, 0)
 	return out
+}
+
+// retCellSplit: see retPointsOf. Returns nil when no operand of the return is a load of a result cell or when the
+// return block has a single predecessor chain that already determines the values.
+func retCellSplit(r *ssa.Return, vals []ssa.Value) []retPoint {
+	f := r.Parent()
+	blk := r.Block()
+	cells := map[int]*ssa.Alloc{}
+	for i, v := range vals {
+		ld, ok := v.(*ssa.UnOp)
+		if !ok || ld.Op != token.MUL {
+			continue
+		}
+		a, ok := ld.X.(*ssa.Alloc)
+		if !ok || a.Parent() != f || !plainCell(a) {
+			continue
+		}
+		cells[i] = a
+	}
+	if len(cells) == 0 || len(blk.Preds) < 2 {
+		return nil
+	}
+	reach := map[*ssa.Alloc]map[*ssa.BasicBlock]map[ssa.Value]bool{}
+	for _, a := range cells {
+		if reach[a] == nil {
+			reach[a] = cellReach(f, a)
+		}
+	}
+	var out []retPoint
+	for _, pred := range blk.Preds {
+		last := pred.Instrs[len(pred.Instrs)-1]
+		nv := append([]ssa.Value{}, vals...)
+		for i, a := range cells {
+			// stores in the return block itself before the return (other than the identity store) would override
+			overridden := false
+			for _, in := range blk.Instrs {
+				if st, ok := in.(*ssa.Store); ok && st.Addr == ssa.Value(a) && !isSelfStore(st) {
+					nv[i] = st.Val
+					overridden = true
+				}
+			}
+			if overridden {
+				continue
+			}
+			set := reach[a][pred]
+			if len(set) == 1 {
+				for v := range set {
+					nv[i] = v
+				}
+			}
+		}
+		as := append([]Atom{}, AtomsAt(r)...)
+		for _, g := range GuardsOf(pred) {
+			as = append(as, NormCond(g.Cond, g.Pol))
+		}
+		if ifi, isIf := last.(*ssa.If); isIf && len(pred.Succs) == 2 && pred.Succs[0] != pred.Succs[1] {
+			pol := pred.Succs[0] == blk
+			as = append(as, NormCond(ifi.Cond, pol))
+			for _, g := range shortCircuitGuards(ifi.Cond, pol, ifi, 0) {
+				as = append(as, NormCond(g.Cond, g.Pol))
+			}
+		}
+		out = append(out, retPoint{Ret: r, Vals: nv, Atoms: as, At: last})
+	}
+	return out
+}
+
+func isSelfStore(st *ssa.Store) bool {
+	ld, ok := st.Val.(*ssa.UnOp)
+	return ok && ld.Op == token.MUL && ld.X == st.Addr
+}
+
+// plainCell: the cell is only stored to and loaded from (no address escapes, no closure captures it).
+func plainCell(a *ssa.Alloc) bool {
+	if a.Referrers() == nil {
+		return false
+	}
+	for _, r := range *a.Referrers() {
+		switch x := r.(type) {
+		case *ssa.Store:
+			if x.Addr != ssa.Value(a) {
+				return false
+			}
+		case *ssa.UnOp:
+			if x.Op != token.MUL {
+				return false
+			}
+		case *ssa.DebugRef:
+		default:
+			return false
+		}
+	}
+	return true
+}
+
+// cellReach: for every block, the set of values the cell can hold at the end of the block (reaching stores; the zero
+// value of the cell's type stands for "never stored").
+func cellReach(f *ssa.Function, a *ssa.Alloc) map[*ssa.BasicBlock]map[ssa.Value]bool {
+	zero := zeroValueOf(a.Type().Underlying().(*types.Pointer).Elem())
+	gen := map[*ssa.BasicBlock]ssa.Value{}
+	for _, b := range f.Blocks {
+		for _, in := range b.Instrs {
+			if st, ok := in.(*ssa.Store); ok && st.Addr == ssa.Value(a) && !isSelfStore(st) {
+				gen[b] = st.Val
+			}
+		}
+	}
+	out := map[*ssa.BasicBlock]map[ssa.Value]bool{}
+	for _, b := range f.Blocks {
+		out[b] = map[ssa.Value]bool{}
+	}
+	changed := true
+	for changed {
+		changed = false
+		for _, b := range f.Blocks {
+			ns := map[ssa.Value]bool{}
+			if v, ok := gen[b]; ok {
+				ns[v] = true
+			} else {
+				if b == f.Blocks[0] || b == a.Block() {
+					ns[zero] = true
+				}
+				for _, p := range b.Preds {
+					for v := range out[p] {
+						ns[v] = true
+					}
+				}
+			}
+			if len(ns) != len(out[b]) {
+				out[b] = ns
+				changed = true
+			}
+		}
+	}
+	return out
+}
+
+var zeroConsts = map[string]*ssa.Const{}
+
+func zeroValueOf(t types.Type) ssa.Value {
+	k := types.TypeString(t, nil)
+	if c, ok := zeroConsts[k]; ok {
+		return c
+	}
+	var c *ssa.Const
+	if b, ok := t.Underlying().(*types.Basic); ok && b.Info()&types.IsBoolean != 0 {
+		c = ssa.NewConst(constant.MakeBool(false), t)
+	} else if ok && b.Info()&types.IsNumeric != 0 {
+		c = ssa.NewConst(constant.MakeInt64(0), t)
+	} else {
+		c = ssa.NewConst(nil, t)
+	}
+	zeroConsts[k] = c
+	return c
 }
 
 // unitRetPoints: the return points of the anchor and of the code split off from it.
